@@ -248,3 +248,157 @@ def shrink_bytes(s, fails):
                 else:
                     i += size
     return s
+
+
+# ---------- bitmaps whose printed text has a prescribed length ----------
+POW2_NEIGHBOURS = [15, 16, 17, 31, 32, 33, 63, 64, 65, 127, 128, 129, 255, 256, 257, 511, 512, 513,
+                   1023, 1024, 1025, 4095, 4096, 4097]
+
+
+def target_lengths(upto=320):
+    return sorted(set(range(1, upto + 1)) | set(POW2_NEIGHBOURS))
+
+
+def _words_of_value(v, nwords=None):
+    ws = []
+    while v:
+        ws.append(v & FULL)
+        v >>= 64
+    if not ws:
+        ws = [0]
+    if nwords:
+        ws += [0] * (nwords - len(ws))
+    return ws
+
+
+def taskset_bitmap_of_length(L, inf, rng):
+    """finite: '0x' + n digits (every L >= 3); infinite: 7 + 16k or 15 + 16k only."""
+    if not inf:
+        if L < 3:
+            return None
+        n = L - 2
+        top = rng.randrange(1, 16)
+        v = top << (4 * (n - 1))
+        if n > 1:
+            v |= rng.getrandbits(4 * (n - 1))
+        return (0, _words_of_value(v))
+    if L < 7 or (L - 7) % 16 not in (0, 8):
+        return None
+    k, half = divmod(L - 7, 16)
+    ws = [rng.getrandbits(64) for _ in range(k)]
+    if half:
+        ws.append(0xFFFFFFFF00000000 | rng.getrandbits(32))   # merged with the infinite prefix: 8 digits
+    elif ws:
+        ws[-1] &= 0x7FFFFFFFFFFFFFFF                           # top word neither FULL nor hi-half-FULL
+    if not ws:
+        ws = [FULL]
+    return (1, ws)
+
+
+def hwloc_bitmap_of_length(L, inf, rng):
+    """groups most significant first: first printed group, then a non-zero groups
+    (11 chars each), b zero groups (1 char each), a last zero group ('0x0', 4 chars)."""
+    def nz():
+        return rng.choice([1, 0x80000000, 0xfffffffe, rng.getrandbits(32) | 1])
+    if not inf:
+        if L == 3:
+            return (0, [0])
+        if L == 10:
+            groups = [nz()]
+        elif L >= 14:
+            a, b = divmod(L - 14, 11)
+            mid = [nz()] * a + [0] * b
+            rng.shuffle(mid)
+            groups = [nz()] + mid + [0]
+        else:
+            return None
+    else:
+        if L == 7:
+            return (1, [FULL])
+        if L < 11:
+            return None
+        a, b = divmod(L - 11, 11)
+        mid = [nz()] * a + [0] * b
+        rng.shuffle(mid)
+        groups = mid + [0]
+        if len(groups) % 2 == 0 and groups[0] == 0xFFFFFFFF:
+            groups[0] = 1
+    k = len(groups)
+    v = 0
+    for j, g in enumerate(reversed(groups)):
+        v |= g << (32 * j)
+    if inf and k % 2 == 1:
+        v |= 0xFFFFFFFF << (32 * k)
+    return (1 if inf else 0, _words_of_value(v, (k + 1) // 2))
+
+
+def list_bitmap_of_length(L, inf, rng):
+    """isolated even indexes: d-digit items cost d+1 characters (comma included, the
+    first one saves 1); infinite: a final 'N-' item."""
+    pools = {1: list(range(0, 10, 2)), 2: list(range(10, 100, 2)), 3: list(range(100, 1000, 2)),
+             4: list(range(1000, 10000, 2))}
+    tails = [None]
+    if inf:
+        tails = [(10000, 7), (0, 3), (10, 4), (100, 5), (1000, 6)]
+    for tail in tails:
+        T = L + 1 - (tail[1] if tail else 0)
+        if tail and T == 0:
+            return (1, _infinite_words([], tail[0]))
+        if T < 2:
+            continue
+        for c1 in range(0, 6):
+            for c2 in range(0, 46):
+                R = T - 2 * c1 - 3 * c2
+                if R < 0:
+                    break
+                for c4 in range(0, 5):
+                    r3 = R - 5 * c4
+                    if r3 >= 0 and r3 % 4 == 0 and r3 // 4 <= 450 and c4 <= 4500:
+                        c3 = r3 // 4
+                        items = (rng.sample(pools[1], c1) + rng.sample(pools[2], c2) +
+                                 rng.sample(pools[3], c3) + rng.sample(pools[4], c4))
+                        if tail:
+                            items = [i for i in items]
+                            if any(i >= tail[0] - 1 for i in items):
+                                continue
+                            return (1, _infinite_words(items, tail[0]))
+                        if not items:
+                            continue
+                        return (0, words_of_bits(items))
+                # larger R: more four-digit items
+                if R >= 0 and R % 5 == 0 and R // 5 <= 4500 and not tail:
+                    pass
+    # long texts: fill with four-digit items
+    T = L + 1 - (7 if inf else 0)
+    for c3 in range(0, 451):
+        R = T - 4 * c3
+        if R >= 0 and R % 5 == 0 and R // 5 <= 4500:
+            items = rng.sample(pools[3], c3) + rng.sample(pools[4], R // 5)
+            if inf:
+                return (1, _infinite_words(items, 10000))
+            if items:
+                return (0, words_of_bits(items))
+    return None
+
+
+def _infinite_words(items, start):
+    n = start // 64 + 1
+    w = words_of_bits(items, n) if items else [0] * n
+    w += [0] * (n - len(w))
+    for b in range(start, 64 * n):
+        w[b // 64] |= 1 << (b % 64)
+    return w
+
+
+def length_targeted_bitmaps(rng, upto=320):
+    """For each format x finite/infinite and each target length: one bitmap whose
+    text in that format has exactly that length (None where the format cannot
+    produce it).  Returns (format, length, inf, words)."""
+    out = []
+    for L in target_lengths(upto):
+        for inf in (0, 1):
+            for f, fn in (("h", hwloc_bitmap_of_length), ("l", list_bitmap_of_length), ("t", taskset_bitmap_of_length)):
+                bm = fn(L, inf, rng)
+                if bm is not None:
+                    out.append((f, L, bm[0], bm[1]))
+    return out
